@@ -23,8 +23,13 @@ ValueOk(lang, v) == v # 8 \/ lang = "rust"
 Common   == {"assign", "callArg", "returnExpr", "defaultParam", "arrayElem", "mapValue", "binop", "compare",
              "index", "twoOnLine", "classAttr"}
 PyOnly   == {"kwArg", "tupleElem", "rangeArg", "enumerateArg", "strRepeat", "upperConst", "annUpperConst", "nestedFunc",
-             "fstringInterp", "lambdaBody", "ternary", "comprehension", "sliceBound", "unaryMinus"}
-TsOnly   == {"upperConst", "enumMember", "lowerConst", "templateInterp", "arrowBody", "ternary"}
+             "fstringInterp", "lambdaBody", "ternary", "comprehension", "sliceBound", "unaryMinus",
+             "upperCallArg", "upperFuncBody"}
+\* upperCallArg / upperFuncBody: the literal is an ARGUMENT of the call, or stands in the BODY of the function, whose
+\* result is bound to an UPPER_CASE name (`TOTAL = compute(37)`, `const HANDLER = () => { return 37; }`): it is not the
+\* constant's definition ("UPPERCASE = value") and stays reportable
+TsOnly   == {"upperConst", "enumMember", "lowerConst", "templateInterp", "arrowBody", "ternary",
+             "upperCallArg", "upperFuncBody"}
 \* (Rust enum discriminants are not generated: the Rust section of the docs lists only const/static/test code)
 RustOnly == {"constItem", "staticItem", "letBinding", "testFn"}
 NonLit   == {"boolTrue", "strDigits", "identDigits"}
@@ -33,8 +38,9 @@ SlotsOf(lang) == (Common \ (IF lang = "rust" THEN {"defaultParam", "classAttr"} 
 \* to stay below the tool's "constants-definition file" heuristic (10+ UPPER_CASE constants) constant slots
 \* carry only three values
 FewValues(slot) == slot \in {"upperConst", "annUpperConst", "constItem", "staticItem", "enumMember", "enumDiscriminant"}
+OneValue(slot) == slot \in {"upperCallArg", "upperFuncBody"}
 Items(lang) == {<<s, v>> : s \in SlotsOf(lang), v \in {w \in Values : ValueOk(lang, w)}} \ 
-               {<<s, v>> \in (SlotsOf(lang) \X Values) : FewValues(s) /\ v \notin {2, 3, 4}}
+               {<<s, v>> \in (SlotsOf(lang) \X Values) : (FewValues(s) /\ v \notin {2, 3, 4}) \/ (OneValue(s) /\ v # 2)}
 
 ExemptSlot(slot, v, maxSmall) ==
     \/ slot \in {"upperConst", "annUpperConst", "constItem", "staticItem", "enumMember", "testFn"}
